@@ -114,6 +114,36 @@ partial def fmtShape : CTree → String
   | .branch _ kids => "B(" ++ ",".intercalate ((Forest.toList kids).map (fun e => hex e.1 ++ "=" ++ fmtShape e.2)) ++ ")"
 end
 
+def findView (v : BucketView) : List Bytes → Option BucketView
+  | [] => some v
+  | n :: rest => match v.subs.find? (fun s => s.1 == n) with
+    | some s => findView s.2 rest
+    | none => none
+
+mutual
+/-- the tree with every leaf emptied (branch keys kept) -/
+def emptiedT : CTree → CTree
+  | .leaf p _ => .leaf p []
+  | .branch p kids => .branch p (emptiedF kids)
+def emptiedF : Forest Bytes Ent → Forest Bytes Ent
+  | .nil => .nil
+  | .cons k t rest => .cons k (emptiedT t) (emptiedF rest)
+end
+
+/-- length of the value a canonical value token stands for -/
+def valLen (v : Val) : Nat :=
+  if v == "-" then 0
+  else if v.startsWith "z" then (((v.drop 1).toString.splitOn ":").headD "0").toNat!
+  else v.length / 2
+
+/-- Layer T tie: the overlay a write transaction has built over the committed tree `t0` when the bucket
+holds `items`: branch entries are not edited before commit, so every item sits in the leaf the model's
+`put` routes it to (the result does not depend on the order of the transaction's edits) -/
+def predictOverlay (t0 : CTree) (items : List ItemS) : CTree :=
+  items.foldl (fun t it => t.put it.1 (match it.2 with
+    | .val v => ({ vsize := valLen v, isBucket := false } : Ent)
+    | .bkt => { vsize := 0, isBucket := true })) (emptiedT t0)
+
 /-- the model's prediction of the committed shape of one bucket -/
 def predictBucket (pagesize : Nat) (pre : CTree) (notes : List Note) : CTree :=
   let pages := pagesOfT pre
